@@ -1006,3 +1006,27 @@ mod test {
         assert_matches!(&frames[0], Frame::ImmediateAck);
     }
 }
+
+#[cfg(feature = "quinn_rs_quinn_verif")]
+impl Iter {
+    /// Number of payload bytes not yet consumed
+    pub(crate) fn verif_remaining(&self) -> usize {
+        self.bytes.len()
+    }
+}
+
+/// `scan_ack_blocks` for the verification executor; the error is `IterErr::reason`
+#[cfg(feature = "quinn_rs_quinn_verif")]
+pub(crate) fn verif_scan_ack_blocks(buf: &[u8], largest: u64, n: usize) -> Result<usize, &'static str> {
+    scan_ack_blocks(buf, largest, n).map_err(|e| e.reason())
+}
+
+#[cfg(feature = "quinn_rs_quinn_verif")]
+impl FrameType {
+    pub(crate) fn verif_raw(self) -> u64 {
+        self.0
+    }
+    pub(crate) fn verif_from_raw(x: u64) -> Self {
+        Self(x)
+    }
+}
